@@ -15,7 +15,7 @@ import (
 func propC06() *fw.Prop {
 	return &fw.Prop{
 		ID: "C06", Level: "exploration",
-		Rule:        "single-allotment scripts run against @world (destination side: credits per clause account; source side: unbounded-overdraft sub-sources so each share is a debit). Exhaustive: every composition of every denominator ≤ 12 (thorough ≤ 24) into 2–4 ratio clauses, optionally with `remaining` replacing the last or a non-last clause, × every total 0..60 (thorough 0..200); random: totals up to 10^40, percentages with decimals, portion variables, sums ≠ 1. Oracle = exact rational arithmetic: Σ shares = total, ⌊p·t⌋ ≤ share ≤ ⌊p·t⌋+1, the +1's form a prefix of the clause list. Distinct = (side, portion vector, position of remaining, total mod denominator).",
+		Rule:        "single-allotment scripts run against @world (destination side: credits per clause account; source side: unbounded-overdraft sub-sources so each share is a debit). Exhaustive: every composition of every denominator ≤ 12 (thorough ≤ 24) into 2–4 ratio clauses, optionally with `remaining` replacing the last or a non-last clause, × every total 0..60 (thorough 0..200); random: totals up to 10^40, percentages with decimals, portion variables, sums ≠ 1. Oracle = exact rational arithmetic: Σ shares = total, ⌊p·t⌋ ≤ share ≤ ⌊p·t⌋+1, the +1's form a prefix of the clause list. Distinct = (side, portion vector, position of remaining, total mod denominator). Added in later rounds: percentages with every number of decimals 1..40; terms and totals just below 2^16..2^64; portions whose terms do not fit a machine word, used in two statements; one parse result run again with other portion values (swapped, or breaking the sum); allotments that do not add up to one nested under a clause of an outer allotment, for every share of that clause including zero.",
 		Assumptions: []string{trustedBase},
 		Require:     []string{"exhaustive_spaces_completed", "shares_checked", "rejected_bad_sum", "cases_with_leftover", "second_use_of_the_same_portions"},
 		Run:         runC06,
